@@ -38,6 +38,7 @@ import (
 
 	"cloud.google.com/go/compute/metadata"
 	"github.com/google/inverting-proxy/agent/metrics"
+	"github.com/google/inverting-proxy/verifhook"
 )
 
 const (
@@ -333,10 +334,13 @@ func (b *bufferedReadSeeker) Read(p []byte) (int, error) {
 	readFromBuf := copy(p, b.buf[b.readHead:b.writeHead])
 	b.readHead += readFromBuf
 	// Read from wrapped source and write to buffer.
+	verifhook.Gate("brs.source", "buf", readFromBuf)
 	readFromSource, err := b.r.Read(p[readFromBuf:])
+	verifhook.Gate("brs.book", "src", readFromSource)
 	written := copy(b.buf[b.writeHead:], p[readFromBuf:(readFromBuf+readFromSource)])
 	b.writeHead += written
 	b.readHead += written
+	verifhook.Emit("BrsRead", "buf", readFromBuf, "src", readFromSource, "wh", b.writeHead, "rh", b.readHead, "eof", err != nil)
 	return readFromBuf + readFromSource, err
 }
 
@@ -348,9 +352,11 @@ func (b *bufferedReadSeeker) Seek(offset int64, whence int) (int64, error) {
 		return 0, errors.New("invalid offset value")
 	}
 	if b.writeHead >= len(b.buf) {
+		verifhook.Emit("BrsSeek", "ok", false, "wh", b.writeHead)
 		return 0, errors.New("cannot seek, possible buffer overflow")
 	}
 	b.readHead = int(offset)
+	verifhook.Emit("BrsSeek", "ok", true, "wh", b.writeHead)
 	return int64(b.readHead), nil
 }
 
@@ -365,13 +371,17 @@ func postResponseWithRetries(client *http.Client, proxyURL, backendID, requestID
 	proxyReq.Header.Set("Content-Type", "text/plain")
 	var proxyResp *http.Response
 	for retryCount := 0; retryCount <= maxWriteResponseRetryCount; retryCount++ {
+		verifhook.Emit("Attempt", "id", requestID, "n", retryCount+1)
+		verifhook.Gate("post.attempt", "n", retryCount+1)
 		if proxyResp, err = client.Do(proxyReq); err != nil {
+			verifhook.Emit("AttemptErr", "id", requestID, "n", retryCount+1)
 			if _, seekErr := proxyReadSeeker.Seek(0, io.SeekStart); seekErr != nil {
 				return err
 			}
 			continue
 		}
 		proxyResp.Body.Close()
+		verifhook.Emit("AttemptStatus", "id", requestID, "n", retryCount+1, "status", proxyResp.StatusCode)
 		if 500 <= proxyResp.StatusCode && proxyResp.StatusCode < 600 {
 			if _, seekErr := proxyReadSeeker.Seek(0, io.SeekStart); seekErr != nil {
 				return err
@@ -444,6 +454,7 @@ func (w *streamingResponseWriter) Header() http.Header {
 }
 
 func (w *streamingResponseWriter) WriteHeader(status int) {
+	verifhook.Emit("SWHeader", "status", status, "latched", w.wroteHeader)
 	if w.wroteHeader {
 		return
 	}
@@ -508,6 +519,7 @@ func (w *streamingResponseWriter) Write(bs []byte) (int, error) {
 	if !w.wroteHeader {
 		w.WriteHeader(http.StatusOK)
 	}
+	verifhook.Emit("SWWrite", "n", len(bs))
 	return w.bodyWriter.Write(bs)
 }
 
@@ -536,6 +548,7 @@ func (w *streamingResponseWriter) Close() error {
 			w.trailer.Add(k, v)
 		}
 	}
+	verifhook.Emit("SWClose")
 	return w.bodyWriter.Close()
 }
 
@@ -592,11 +605,13 @@ func NewResponseForwarder(client *http.Client, proxyHost, backendID, requestID s
 			// Force the transfer encoding to chunked so that the response writing
 			// is performed incrementally as response data is available.
 			resp.TransferEncoding = []string{"chunked"}
+			verifhook.Emit("SerStart", "id", requestID, "status", resp.StatusCode)
 			if err := resp.Write(proxyWriter); err != nil {
 				rw.CloseWithError(err)
 				writeErrChan <- err
 			}
 			statusCode = resp.StatusCode
+			verifhook.Emit("SerDone", "id", requestID)
 		}
 		if metricHandler != nil {
 			go metricHandler.WriteResponseCodeMetric(statusCode)
@@ -636,6 +651,7 @@ func ExponentialBackoffDuration(retryCount uint) time.Duration {
 	}
 
 	targetDuration = addJitter(targetDuration, JitterPercent)
+	verifhook.Emit("Backoff", "n", fmt.Sprint(retryCount), "d_us", targetDuration.Microseconds())
 	return targetDuration
 }
 
